@@ -2,9 +2,9 @@ package c17
 
 import (
 	"bytes"
-	"sync/atomic"
 	"fmt"
 	"sort"
+	"sync/atomic"
 	"time"
 
 	"verifharness/drive"
@@ -153,7 +153,7 @@ func executeUDP(c *fw.Ctx, ru *Run) {
 			allowed := tburst + ru.TotalRate*(s.t-firstT0).Seconds() + 1
 			if float64(cum) > allowed {
 				kind := "total-rate-exceeded"
-				if ru.Conns > 1 && (float64(cum)-allowed) < 0.005*allowed {
+				if excess := float64(cum) - allowed; ru.Conns > 1 && (excess < 0.005*allowed || excess <= 2) {
 					kind = "total-rate-exceeded marginally (<0.5% over the bound, concurrent readers on the shared limiter)"
 					c.Violation("C17 "+kind, fmt.Sprintf("%d bytes over %d udp associations %v after the first read; allowed %.0f", cum, ru.Conns, s.t-firstT0, allowed), map[string]any{"run": ru})
 					break
